@@ -57,22 +57,25 @@ func foreignShapes() []tbin.Value {
 // value) type is another one - widened integers, a struct instead of a scalar, and
 // the empty container of another element type.
 func retypedElems(v tbin.Value) []tbin.Value {
-	other := func(t tbin.Type) tbin.Value {
+	// (k distinguishes the two elements: two steps in a row can lead back to the declared
+	// element type, and a set must not then hold one element twice)
+	otherK := func(t tbin.Type, k int64) tbin.Value {
 		switch t {
 		case tbin.I64:
-			return tbin.Value{T: tbin.I32, I: 5}
+			return tbin.Value{T: tbin.I32, I: 5 + k}
 		case tbin.Struct:
-			return tbin.Value{T: tbin.Binary, B: []byte("was-a-struct")}
+			return tbin.Value{T: tbin.Binary, B: []byte(fmt.Sprintf("was-a-struct-%d", k))}
 		case tbin.I8, tbin.I16, tbin.I32:
-			return tbin.Value{T: tbin.I64, I: 5}
+			return tbin.Value{T: tbin.I64, I: 5 + k}
 		}
-		return tbin.Value{T: tbin.Struct, Fields: []tbin.Field{{ID: 1, V: tbin.Value{T: tbin.I8, I: 1}}}}
+		return tbin.Value{T: tbin.Struct, Fields: []tbin.Field{{ID: 1, V: tbin.Value{T: tbin.I8, I: 1 + k}}}}
 	}
+	other := func(t tbin.Type) tbin.Value { return otherK(t, 0) }
 	switch v.T {
 	case tbin.List, tbin.Set:
 		o := other(v.VT)
 		return []tbin.Value{
-			{T: v.T, VT: o.T, Items: []tbin.Value{o, o}},
+			{T: v.T, VT: o.T, Items: []tbin.Value{o, otherK(v.VT, 1)}},
 			{T: v.T, VT: o.T},
 		}
 	case tbin.Map:
